@@ -5,7 +5,7 @@ EXTENDS Session, Json
 VARIABLE hist
 GenInit == Init /\ hist = <<>>
 GenNext == Next /\ hist' = Append(hist, [a |-> last'.a, c |-> last'.c, s |-> last'.s, arg |-> last'.arg, ok |-> last'.ok,
-                                         zeroChanged |-> {w \in Weapons : zero'[w] # zero[w]}])
+                                         zeroChanged |-> {w \in Weapons : zero'[w] # zero[w]}, content |-> content'])
 GenSpec == GenInit /\ [][GenNext]_<<vars, hist>>
 Emit == (ops = MaxOps) => PrintT(<<"BEH", ToJson(hist)>>)
 =============================================================================
